@@ -604,14 +604,16 @@ def case_exprs(c, out, sim, tag="k"):
             cmp("num_cores", "read_sv_int (mem_reader MC) sv_num_cpus", o["num_cores"], "Z.eqb", zlit)
         defs.append("Definition %s : list (Z * list Z) := %s." % (mcname, memc))
         exprs.append(vlist(parts).replace("(mem_reader MC)", "(mem_reader %s)" % mcname))
-    return all_names, "\n".join(defs), " ++ ".join(exprs)
+    return all_names, "\n".join(defs), exprs        # each expression is evaluated by its own Eval (joining
+    #                                                  them with ++ makes vm_compute an order of magnitude slower)
 
 
 def coq_eval_cases(chk, triples, shard, timeout=2400):
     """triples: [(names, defs, expr)] -> list of parsed values (one list of booleans per case)."""
     import concurrent.futures
     shards = [triples[i:i + shard] for i in range(0, len(triples), shard)]
-    texts = [HEADER + "\n".join("%s\nEval vm_compute in (%s)." % (d, e) for _, d, e in sh) + "\n" for sh in shards]
+    texts = [HEADER + "\n".join(d + "\n" + "\n".join("Eval vm_compute in (%s)." % e for e in es) for _, d, es in sh) + "\n"
+             for sh in shards]
     with concurrent.futures.ThreadPoolExecutor(max_workers=min(12, os.cpu_count() or 4)) as ex:
         results = list(ex.map(lambda kt: chk.coqc_text("cases_%d" % kt[0], kt[1], timeout), enumerate(texts)))
     vals = []
@@ -619,9 +621,16 @@ def coq_eval_cases(chk, triples, shard, timeout=2400):
         if "@@COQC-FAILED" in out:
             raise RuntimeError("model evaluation failed in shard %d: %s" % (k, out[-1500:]))
         vs = lib.split_evals(out)
-        if len(vs) != len(sh):
-            raise RuntimeError("model evaluation shard %d printed %d values for %d cases: %s" % (k, len(vs), len(sh), out[-800:]))
-        vals.extend(lib.parse_term(v) for v in vs)
+        if len(vs) != sum(len(es) for _, _, es in sh):
+            raise RuntimeError("model evaluation shard %d printed %d values for %d expressions: %s"
+                               % (k, len(vs), sum(len(es) for _, _, es in sh), out[-800:]))
+        pos = 0
+        for _, _, es in sh:
+            v = []
+            for part in vs[pos:pos + len(es)]:
+                v += lib.parse_term(part)
+            pos += len(es)
+            vals.append(v)
     return vals
 
 
